@@ -469,6 +469,12 @@ def check(ctx):
     # caller, in call order): the blocking engine's send queue is first-in first-out (C20's engine model)
     ctx.rule("R14", "Time items over their whole field: for \"HH:MM\" texts on a grid of hours and minutes 0..255 (24:00, 00:60, 255:255 included) both writers of a GeckoTimeStructAccessor built by its constructor emit the word h*256+m, and a block holding that word reads back as the same text")
     time_items_round_trip(ctx, repo, "R14")
+    ctx.rule("R15", "every write can be numbered, on both paths alike: a device write carries a command sequence number in ONE byte, so the counter each path draws it from must issue 192..255 and wrap there - a counter that runs on to 256 makes the 65th awaitable write of a connection unbuildable (struct.error inside the set-value task: the write is lost silently) while the blocking path still emits it; and both counters must issue the same numbers for the same draws or the two paths' datagrams differ (C16.R1/R2 fixpoint on both implementations and C16.R5 sibling agreement borrowed)")
+    from . import c16 as _c16
+    _res15 = []
+    for impl in _c16.IMPLS:
+        _res15.append(_c16.fixpoint(ctx.borrowed("R15", "C16", only=("R1", "R2")), repo, impl, ctx.tier))
+    _c16.sibling(ctx.borrowed("R15", "C16", only=("R5",)), repo, _res15)
     ctx.rule("R13", "writes reach the device in the order they were made, on both paths: the blocking engine's send queue, interpreted with several requests queued before the worker drains them, transmits them first-in first-out - a reversed queue leaves the FIRST value written in force and the two paths no longer emit identical device writes (C20.R1's engine model borrowed)")
     from ..enginemodel import engine_obligations as _eo
     _eo(ctx.borrowed("R13", "C20", only=("R1",), key_prefix="send-queue::fifo"), repo, "R1", "R2", "R3", "R4")
